@@ -203,7 +203,28 @@ fn pretty_inline(ts: TokenStream, out: &mut String) {
 // syn summary of the emitted items
 fn ty_str(t: &syn::Type) -> String {
     use quote::ToTokens;
-    t.to_token_stream().to_string().replace(' ', "")
+    // `::std::option::Option<T>`, `core::option::Option<T>`, `std::vec::Vec<T>`, `alloc::boxed::Box<T>` ... are the same types as
+    // `Option<T>`, `Vec<T>`, `Box<T>`: the summary names the type, not the spelling of its path
+    let mut s = t.to_token_stream().to_string().replace(' ', "");
+    for (module, name) in [("option", "Option"), ("vec", "Vec"), ("boxed", "Box"), ("string", "String")] {
+        for krate in ["std", "core", "alloc"] {
+            for lead in ["::", ""] {
+                let from = format!("{lead}{krate}::{module}::{name}");
+                let mut out = String::new();
+                let mut rest = s.as_str();
+                while let Some(i) = rest.find(&from) {
+                    // only whole paths: not preceded by an identifier character or another path segment
+                    let ok = i == 0 || !matches!(rest.as_bytes()[i - 1], b'a'..=b'z' | b'A'..=b'Z' | b'0'..=b'9' | b'_' | b':');
+                    out.push_str(&rest[..i]);
+                    out.push_str(if ok { name } else { &from });
+                    rest = &rest[i + from.len()..];
+                }
+                out.push_str(rest);
+                s = out;
+            }
+        }
+    }
+    s
 }
 
 fn lit_str(e: &syn::Expr) -> Option<String> {
